@@ -25,6 +25,9 @@ pub enum BOp {
     /// local paths: clone the local histogram and drop the clone at once (a clone starts empty, so
     /// nothing may reach the shared histogram); a no-op on the other paths
     CloneDrop,
+    /// local paths: the local histogram (vector) is dropped while the thread unwinds from an injected
+    /// panic - it must flush like any other drop - and a fresh one takes its place
+    PanicDrop,
 }
 #[derive(Serialize, Deserialize, Clone, Debug)]
 pub struct BucketPlan {
@@ -118,7 +121,7 @@ fn gen_plan(seed: u64) -> BucketPlan {
         match r.below(10) {
             0..=6 => ops.push(BOp::Observe(*r.pick(&pool))),
             7 => ops.push(BOp::Flush),
-            8 if r.chance(40) => ops.push(BOp::CloneDrop),
+            8 if r.chance(40) => ops.push(if r.chance(50) { BOp::CloneDrop } else { BOp::PanicDrop }),
             _ => ops.push(BOp::Collect),
         }
     }
@@ -189,7 +192,7 @@ fn execute(plan: &BucketPlan, mode: Mode) -> RunOut {
                 probes.lock().unwrap().0 += 1;
                 let mut shared = Model { bounds: b.clone(), ..Default::default() };
                 let mut pending = Model { bounds: b.clone(), ..Default::default() };
-                let local = if plan.through == Through::Local { Some(h.local()) } else { None };
+                let mut local = if plan.through == Through::Local { Some(h.local()) } else { None };
                 let mut lvec = if plan.through == Through::LocalVec { hv.as_ref().map(|x| x.local()) } else { None };
                 for (i, op) in plan.ops.iter().enumerate() {
                     match op {
@@ -221,6 +224,21 @@ fn execute(plan: &BucketPlan, mode: Mode) -> RunOut {
                                     shared.sum += pending.sum;
                                     pending.sum = 0.0;
                                 }
+                            }
+                        }
+                        BOp::PanicDrop => {
+                            if let Some(l) = local.take() {
+                                drop_while_unwinding(l);
+                                local = Some(h.local());
+                            }
+                            if let Some(lv) = lvec.take() {
+                                drop_while_unwinding(lv);
+                                lvec = hv.as_ref().map(|x| x.local());
+                            }
+                            if !pending.vals.is_empty() {
+                                shared.vals.extend(pending.vals.drain(..));
+                                shared.sum += pending.sum;
+                                pending.sum = 0.0;
                             }
                         }
                         BOp::CloneDrop => {
